@@ -4,11 +4,11 @@
    usage: c17 <trace.ndjson> <history> [<history> ...]
    history = comma separated key=value list:
      src=api:loop | api:sieve | api:memop | scan:<file.mir> | scanstr:sieve | bin:<file.mir> | c2m:<name or file.c>
+         | adt  (no MIR context: mir-varr.h / mir-htab.h used directly with the ledger allocator)
      link=none|interp|gen|lazy|lazybb      interface passed to MIR_link
      opt=0..3                              MIR_gen_set_optimize_level
      run=0|1                               execute `main` (if the module has one) through the interface
      out=0|1                               MIR_output to /dev/null and MIR_write to a scratch file
-     fin=full | nogenfin                   (nogenfin: legal only when the generator was never initialised)
      rep=<n>                               repeat gen_init .. gen_finish n times inside one context
    bin:<file> = context 1: scan + MIR_write + finish; context 2 (a new execution): MIR_read + the rest.
    One line per history on stdout: "H <index> <status> <events>" with status ok|abort:<why>. */
@@ -29,6 +29,11 @@
 #include "mir-tests/api-sieve.h"
 #include "mir-tests/api-memop.h"
 #include "mir-tests/scan-sieve.h"
+#include "mir-htab.h"
+
+typedef long c17_el_t;
+DEF_VARR (c17_el_t);
+DEF_HTAB (c17_el_t);
 
 static jmp_buf err_jmp;
 static char err_msg[200];
@@ -150,7 +155,7 @@ static char *read_text (const char *path) {
 
 /* ---------------------------------------------------------------- one history */
 struct hist {
-  char src[300], link[16], fin[16];
+  char src[300], link[16];
   int opt, run, out, rep;
 };
 
@@ -159,7 +164,6 @@ static void parse_hist (const char *spec, struct hist *h) {
   memset (h, 0, sizeof (*h));
   strcpy (h->src, "api:loop");
   strcpy (h->link, "interp");
-  strcpy (h->fin, "full");
   h->opt = 2;
   h->run = 1;
   h->rep = 1;
@@ -170,7 +174,6 @@ static void parse_hist (const char *spec, struct hist *h) {
     *eq++ = 0;
     if (strcmp (tok, "src") == 0) snprintf (h->src, sizeof (h->src), "%s", eq);
     else if (strcmp (tok, "link") == 0) snprintf (h->link, sizeof (h->link), "%s", eq);
-    else if (strcmp (tok, "fin") == 0) snprintf (h->fin, sizeof (h->fin), "%s", eq);
     else if (strcmp (tok, "opt") == 0) h->opt = atoi (eq);
     else if (strcmp (tok, "run") == 0) h->run = atoi (eq);
     else if (strcmp (tok, "out") == 0) h->out = atoi (eq);
@@ -265,6 +268,45 @@ static int build (MIR_context_t ctx, struct hist *h, int *c2m_active) {
   return 1;
 }
 
+/* The container headers with the user's allocator and no MIR context: growth by more than one element while
+   the array is not full, tailoring down and up, hash table growth/rebuild, clear, destroy. */
+static htab_hash_t adt_hash (c17_el_t e, void *arg) { (void) arg; return (htab_hash_t) (e * 2654435761u); }
+static int adt_eq (c17_el_t a, c17_el_t b, void *arg) { (void) arg; return a == b; }
+
+static const char *run_adt (const char *name) {
+  VARR (c17_el_t) * v, *w;
+  HTAB (c17_el_t) * h;
+  c17_el_t buf[300], t;
+  long i;
+  c17_start (name);
+  API ("VARR");
+  for (i = 0; i < 300; i++) buf[i] = i;
+  VARR_CREATE (c17_el_t, v, c17_alloc (), 4);
+  VARR_CREATE (c17_el_t, w, c17_alloc (), 0);
+  for (i = 0; i < 3; i++) VARR_PUSH (c17_el_t, v, i);
+  VARR_EXPAND (c17_el_t, v, 100);              /* 3 elements in a 4-slot array */
+  VARR_PUSH_ARR (c17_el_t, v, buf, 300);       /* 3 elements, 150 slots */
+  VARR_TAILOR (c17_el_t, v, 50);
+  VARR_TAILOR (c17_el_t, v, 500);
+  VARR_TRUNC (c17_el_t, v, 10);
+  VARR_EXPAND (c17_el_t, v, 2000);
+  for (i = 0; i < 100; i++) VARR_PUSH (c17_el_t, w, i);
+  VARR_TAILOR (c17_el_t, w, 100);
+  VARR_PUSH_ARR (c17_el_t, w, buf, 7);
+  API ("HTAB");
+  HTAB_CREATE (c17_el_t, h, c17_alloc (), 2, adt_hash, adt_eq, NULL);
+  for (i = 0; i < 200; i++) HTAB_DO (c17_el_t, h, i * 7, HTAB_INSERT, t);
+  for (i = 0; i < 200; i += 3) HTAB_DO (c17_el_t, h, i * 7, HTAB_DELETE, t);
+  for (i = 200; i < 300; i++) HTAB_DO (c17_el_t, h, i * 7, HTAB_REPLACE, t);
+  HTAB_CLEAR (c17_el_t, h);
+  for (i = 0; i < 40; i++) HTAB_DO (c17_el_t, h, i, HTAB_INSERT, t);
+  HTAB_DESTROY (c17_el_t, h);
+  VARR_DESTROY (c17_el_t, v);
+  VARR_DESTROY (c17_el_t, w);
+  c17_finish ();
+  return NULL;
+}
+
 /* returns NULL when the history completed, else the reason it was abandoned */
 static const char *run_ctx (struct hist *h, const char *name, const char *write_to) {
   MIR_context_t ctx;
@@ -339,7 +381,7 @@ static const char *run_ctx (struct hist *h, const char *name, const char *write_
           c17_note ("main_result", fn (1000));
         }
       }
-      if (gen_active && (rep + 1 < h->rep || strcmp (h->fin, "nogenfin") != 0)) {
+      if (gen_active) {
         API ("MIR_gen_finish");
         MIR_gen_finish (ctx);
         gen_active = 0;
@@ -388,6 +430,8 @@ int main (int argc, char **argv) {
         why = run_ctx (&h, argv[i], NULL);
       }
       unlink (path);
+    } else if (strcmp (h.src, "adt") == 0) {
+      why = run_adt (argv[i]);
     } else {
       why = run_ctx (&h, argv[i], NULL);
     }
